@@ -221,15 +221,15 @@ def check_units(tier, only):
         replayer.close()
     disagreements, checked = [], 0
     for (a, b), r in fac.items():
-        for amount in ("1", "7.5"):
+        for amount in ("1", "7.5", "1@comma", "7.5@comma"):     # @comma: the default configuration (',' decimal separator)
             got = table.get((a, b, amount), "missing")
             if got == "missing":
                 continue
             checked += 1
-            want = None if r is None else float(Fraction(amount) * r[0])
+            want = None if r is None else float(Fraction(amount.split("@")[0]) * r[0])
             if (got is None) != (want is None) or (got is not None and abs(got - want) > 1e-9 * max(1.0, abs(want))):
                 disagreements.append((a, b, amount, got, want))
-    p_model = Part("D", "d_unit_walk_model_vs_native", "translator validation: the walk model of calculate_unit/convert agrees with the native SmartCalc on every ordered pair of configured units at two amounts")
+    p_model = Part("D", "d_unit_walk_model_vs_native", "translator validation: the walk model of calculate_unit/convert agrees with the native SmartCalc on every ordered pair of configured units at two amounts, under both separator conventions ('.' decimal and the default ',' decimal)")
     p_model.functions = ["compiler::dynamic_type::DynamicTypeItem::calculate_unit", "compiler::dynamic_type::DynamicTypeItem::convert"]
     p_model.queries = checked
     if not table:
@@ -240,7 +240,7 @@ def check_units(tier, only):
             kb = KIND_OF_GROUP[[g for g, _, n in units if n == b][0]]
             if ka != kb:
                 return got is not None
-            want = float(Fraction(amount) * Fraction(STD[ka][a]) / Fraction(STD[kb][b]))
+            want = float(Fraction(amount.split("@")[0]) * Fraction(STD[ka][a]) / Fraction(STD[kb][b]))
             return got is None or abs(got - want) > 1e-9 * max(1.0, abs(want))
         wrong = [d for d in disagreements if contradicts(d[0], d[1], d[2], d[3])]
         if wrong:
@@ -325,9 +325,20 @@ def check_units(tier, only):
 
 
 D_ASSUMPTIONS = [
-    "engine D: config.json conversion programs are data; they are composed along the chain exactly as calculate_unit/convert walk it (hand-written walk model, compared with the native crate on every ordered unit pair at two amounts on every run) and decided over exact rationals / z3 reals; f64 rounding along the chain and the separator-dependent re-tokenisation of intermediate values (C08) are outside the claim",
+    "engine D: config.json conversion programs are data; they are composed along the chain exactly as calculate_unit/convert walk it (hand-written walk model, compared with the native crate on every ordered unit pair at two amounts on every run) and decided over exact rationals / z3 reals; f64 rounding along the chain is outside the claim; the re-tokenisation of the programs and intermediate values under the configured separators is covered by running the native comparison under both separator conventions",
 ]
 
 import props  # noqa: E402
 
 props.D_FUNCS["C12"] = check_units
+
+
+def check_units_both_conventions(tier, only):
+    """C08: the one computation that re-enters the reader (unit conversion) agrees with the unit programs under both
+    separator conventions - the same run as C12's, reporting the parts that speak about it"""
+    parts, assumptions, extra = check_units(tier, only)
+    keep = [p for p in parts if p.name in ("d_unit_programs_linear", "d_unit_walk_model_vs_native")]
+    return keep, assumptions, extra
+
+
+props.D_FUNCS["C08"] = check_units_both_conventions
